@@ -2,8 +2,8 @@
    This file holds the property theorems only; each is closed by [exact] of a lemma proved in Proofs/.
    big.Int = Z, time = Z nanoseconds; votes get aos k = the (oracle, value) observations of key k;
    fchain_cons get F aos = the fChain map agreed at 2F+1; agg_thr t = t for t < 2^63 (Go compares against int(t)). *)
-Require Import Verif.Model.Base Verif.Model.Consensus Verif.Model.CommitConsensus Verif.Model.Prices
-               Verif.Proofs.CommitConsensusP Verif.Proofs.PricesP.
+Require Import Verif.Model.Base Verif.Model.Consensus Verif.Model.CommitConsensus Verif.Model.Prices Verif.Model.PricesHist
+               Verif.Proofs.CommitConsensusP Verif.Proofs.PricesP Verif.Proofs.PricesHistP.
 
 (* the median of >= 2f+1 values of which <= f are faulty lies between the smallest and largest honest value *)
 Theorem C14_median_robust : forall (xs hs bs : list Z) (f : nat) (lo hi : Z),
@@ -180,3 +180,141 @@ Theorem C14_validation_unfixed_refuted :
      tp_validate_unfixed roles known feedchain dest (o, r) = true /\ In (t, (ts, None)) (tpr_updates r)).
 Proof. exact validate_unfixed_refuted. Qed.
 Print Assumptions C14_validation_unfixed_refuted.
+
+(* ================= histories: ONE long-lived processor, round k+1 is handed the Outcome value of round k ================= *)
+(* cf_history cfg prev rds / tp_history cfg prev rds = the list of (verdicts, Outcome result, prices of the returned
+   Outcome value) of the rounds rds run through one processor with configuration cfg, the first round being handed prev and
+   every later round the returned value of the round before (Model/PricesHist.v). *)
+
+(* round k of every history is the processor run on round k's role map and observations alone: neither the initial previous
+   outcome nor anything that happened in rounds 0..k-1 occurs on the right-hand side *)
+Theorem C14_history_round_gas : forall cfg prev rds k rd,
+  nth_error rds k = Some rd ->
+  nth_error (cf_history cfg prev rds) k = Some (cf_step cfg [] rd).
+Proof. exact cf_history_round. Qed.
+Print Assumptions C14_history_round_gas.
+
+Theorem C14_history_round_token : forall cfg prev rds k rd,
+  nth_error rds k = Some rd ->
+  nth_error (tp_history cfg prev rds) k = Some (tp_step cfg [] rd).
+Proof. exact tp_history_round. Qed.
+Print Assumptions C14_history_round_token.
+
+Theorem C14_history_prev_irrelevant : forall ccfg tcfg p1 p2 q1 q2 crds trds,
+  cf_history ccfg p1 crds = cf_history ccfg p2 crds /\ tp_history tcfg q1 trds = tp_history tcfg q2 trds.
+Proof. exact history_prev_irrelevant. Qed.
+Print Assumptions C14_history_prev_irrelevant.
+
+(* hence every gas price in the Outcome value of any round of any history satisfies C14_gas_price and C14_selection_gas
+   over the observations accepted in THAT round *)
+Theorem C14_history_gas_current : forall cfg prev rds k rd vs r out c g,
+  nth_error rds k = Some rd ->
+  nth_error (cf_history cfg prev rds) k = Some (vs, r, out) ->
+  In (c, g) out ->
+  let aos := cf_accepted cfg rd in
+  r = Ok out /\
+  (exists f,
+     alookup c (fchain_cons cf_fchain (cfc_F cfg) aos) = Some f /\
+     let fcs := map snd (votes cf_feecomp aos c) in
+     let nts := map snd (votes cf_native aos c) in
+     (agg_thr (two_f_plus_1 f) <= N.of_nat (length fcs))%N /\
+     (agg_thr (two_f_plus_1 f) <= N.of_nat (length nts))%N /\
+     g = to_packed (usd_per_unit_gas (medianZ (map snd fcs)) (medianZ nts))
+                   (usd_per_unit_gas (medianZ (map fst fcs)) (medianZ nts))) /\
+  (exists cns, cf_consensus (cfc_F cfg) (cfc_dest cfg) aos = Ok cns /\
+     exists ex da, In (c, (ex, da)) (cf_usd cns) /\ g = to_packed da ex /\
+       (alookup c (cc_updates cns) = None \/
+        exists uex uda uts, alookup c (cc_updates cns) = Some (uex, uda, uts) /\
+          ((uts + cfc_freq cfg < cc_ts cns)%Z \/
+           exists eppb dppb, alookup c (cfc_feeinfo cfg) = Some (eppb, dppb) /\
+             (deviates ex uex eppb = true \/ deviates da uda dppb = true)))).
+Proof. exact cf_history_current. Qed.
+Print Assumptions C14_history_gas_current.
+
+(* ... and every token price C14_token_price and C14_selection_token ... *)
+Theorem C14_history_token_current : forall cfg prev rds k rd vs r out t p,
+  nth_error rds k = Some rd ->
+  nth_error (tp_history cfg prev rds) k = Some (vs, r, out) ->
+  In (t, p) out ->
+  let aos := tp_accepted cfg rd in
+  r = Ok out /\
+  (exists ff,
+     alookup (tpc_feedchain cfg) (fchain_cons tp_fchain (tpc_F cfg) aos) = Some ff /\
+     let ps := map snd (votes tp_feed aos t) in
+     (agg_thr (two_f_plus_1 ff) <= N.of_nat (length ps))%N /\ p = medianZ ps) /\
+  (exists cns, tp_consensus (tpc_feedchain cfg) (tpc_F cfg) (tpc_dest cfg) aos = Ok cns /\
+     In (t, p) (tc_feed cns) /\
+     (alookup t (tc_updates cns) = None \/
+      exists uts uval ppb, alookup t (tc_updates cns) = Some (uts, uval) /\ alookup t (tpc_tokeninfo cfg) = Some ppb /\
+        ((uts + tpc_freq cfg < tc_ts cns)%Z \/ deviates p uval ppb = true))).
+Proof. exact tp_history_current. Qed.
+Print Assumptions C14_history_token_current.
+
+(* ... and C14_median_robust: between the smallest and largest honest observation of THAT round *)
+Theorem C14_history_token_robust : forall cfg prev rds k rd vs r out t p ff hs bs lo hi,
+  nth_error rds k = Some rd ->
+  nth_error (tp_history cfg prev rds) k = Some (vs, r, out) ->
+  In (t, p) out ->
+  let aos := tp_accepted cfg rd in
+  alookup (tpc_feedchain cfg) (fchain_cons tp_fchain (tpc_F cfg) aos) = Some ff -> (0 <= ff < 2 ^ 62)%Z ->
+  Permutation (map snd (votes tp_feed aos t)) (hs ++ bs) -> (length bs <= Z.to_nat ff)%nat ->
+  (forall h, In h hs -> lo <= h <= hi)%Z ->
+  (lo <= p <= hi)%Z.
+Proof. exact tp_history_robust. Qed.
+Print Assumptions C14_history_token_robust.
+
+(* a round whose observations reach no consensus (destination f / timestamps: the error exit; no chain with agreed fee
+   components: the "nothing to update" exit) hands back NO price, whatever it was handed as previous outcome *)
+Theorem C14_history_no_consensus_no_gas_price : forall cfg prev rds k rd vs r out,
+  nth_error rds k = Some rd ->
+  nth_error (cf_history cfg prev rds) k = Some (vs, r, out) ->
+  (cf_consensus (cfc_F cfg) (cfc_dest cfg) (cf_accepted cfg rd) = Err \/
+   exists cns, cf_consensus (cfc_F cfg) (cfc_dest cfg) (cf_accepted cfg rd) = Ok cns /\ cc_feecomp cns = []) ->
+  out = [].
+Proof. exact cf_history_no_consensus_no_price. Qed.
+Print Assumptions C14_history_no_consensus_no_gas_price.
+
+Theorem C14_history_no_consensus_no_token_price : forall cfg prev rds k rd vs r out,
+  nth_error rds k = Some rd ->
+  nth_error (tp_history cfg prev rds) k = Some (vs, r, out) ->
+  tp_consensus (tpc_feedchain cfg) (tpc_F cfg) (tpc_dest cfg) (tp_accepted cfg rd) = Err ->
+  out = [].
+Proof. exact tp_history_no_consensus_no_price. Qed.
+Print Assumptions C14_history_no_consensus_no_token_price.
+
+(* plugin level: the price part (ChainFeeOutcome.GasPrices, TokenPriceOutcome.TokenPrices) of the outcome of round k — which
+   Reports copies into PriceUpdates — is the pair of the two processors' returned values of round k *)
+Theorem C14_history_plugin_prices : forall cfg prev rds k rd gas tok,
+  nth_error rds k = Some rd ->
+  nth_error (pl_history cfg prev rds) k = Some (gas, tok) ->
+  nth_error (cf_history (fst cfg) (fst prev) (map fst rds)) k
+    = Some (cf_verdicts (fst cfg) (fst rd), cf_step_result (fst cfg) (fst rd), gas) /\
+  nth_error (tp_history (snd cfg) (snd prev) (map snd rds)) k
+    = Some (tp_verdicts (snd cfg) (snd rd), tp_step_result (snd cfg) (snd rd), tok).
+Proof. exact history_plugin_prices. Qed.
+Print Assumptions C14_history_plugin_prices.
+
+(* the theorems above tell the code apart from a processor that hands the previous outcome back on its error and "nothing to
+   update" exits: run over the three-round history of Proofs/PricesHistP.v that variant puts a gas price of a chain with
+   NO fee-component observation in round 2 into round 2's Outcome value, where the model of the code has none *)
+Theorem C14_history_stale_variant_refuted :
+  exists cfg rds vs r out c g,
+    nth_error (run_hist cf_step_stale ro_next cfg [] rds) 2 = Some (vs, r, out) /\
+    In (c, g) out /\ r = Err /\
+    (forall rd, nth_error rds 2 = Some rd -> votes cf_feecomp (cf_accepted cfg rd) c = []) /\
+    nth_error (cf_history cfg [] rds) 2 = Some (vs, Err, []).
+Proof. exact cf_history_stale_refuted. Qed.
+Print Assumptions C14_history_stale_variant_refuted.
+
+(* non-vacuity: a concrete history (first round reports a price, the next two, handed that price, report none; a non-empty
+   initial previous outcome) meets the hypotheses of the history theorems *)
+Theorem C14_history_nonvacuous :
+  cf_history ex_cf_cfg [(7%N, 1%Z)] [ex_cf_round1; ex_cf_round2; ex_cf_round3]
+  = [ ([true; true; true; true], Ok [(5%N, to_packed 2000000000 60000000000000)], [(5%N, to_packed 2000000000 60000000000000)]);
+      ([true; true; true; true], Ok [], []);
+      ([true; true; true; true], Err, []) ] /\
+  tp_history ex_tp_cfg [(17%N, 1%Z)] [ex_tp_round1; ex_tp_round2]
+  = [ ([true; true; true; true], Ok [(17%N, 1002%Z)], [(17%N, 1002%Z)]);
+      ([true; true; true; true], Ok [], []) ].
+Proof. split; [exact ex_cf_history|exact ex_tp_history]. Qed.
+Print Assumptions C14_history_nonvacuous.
